@@ -72,6 +72,18 @@ def fold(s: S) -> S:
             a, b = sorted([a, b], key=skey)
             return ("cmp", op, a, b)
         if op in ("is", "isnot"):
+            # (T if c else None) is None  ==  not c   when T is a freshly built value (never None)
+            for x, y in ((a, b), (b, a)):
+                if y == K_NONE and isinstance(x, tuple) and x and x[0] == "ite":
+                    tn, en = _never_none(x[2]), _never_none(x[3])
+                    if tn and x[3] == K_NONE:
+                        r = mk_not(x[1])
+                        return r if op == "is" else mk_not(r)
+                    if en and x[2] == K_NONE:
+                        r = x[1]
+                        return r if op == "is" else mk_not(r)
+                if y == K_NONE and _never_none(x):
+                    return K_FALSE if op == "is" else K_TRUE
             if is_const(a) and is_const(b):
                 r = a == b
                 return K_TRUE if (r == (op == "is")) else K_FALSE
@@ -115,7 +127,40 @@ def fold(s: S) -> S:
         return mk_call(fn, args, kwargs)
     if tag == "seq":
         return ("seq", fold_block(s[1]))
+    if tag == "proj" and len(s) == 4:
+        v = fold(s[1])
+        if isinstance(v, tuple) and v and v[0] in ("tuple", "list") and len(v[1]) == s[3]:
+            return v[1][s[2]]
+        return ("proj", v, s[2], s[3])
     return tuple(fold(x) for x in s)
+
+
+def _never_none(x: S) -> bool:
+    """a value that is built on the spot: a tuple / list / dict display, a number, a string"""
+    return isinstance(x, tuple) and bool(x) and (x[0] in ("tuple", "list", "dict", "comp") or (x[0] == "k" and x[1] in ("num", "str", "bool")))
+
+
+def assume(x: S, cond: S, truth: bool) -> S:
+    """``x`` simplified under the knowledge that ``cond`` is true / false (conjuncts of a true conjunction are true,
+    disjuncts of a false disjunction are false)"""
+    known: dict = {}
+
+    def learn(c, t):
+        known[c] = K_TRUE if t else K_FALSE
+        known[mk_not(c)] = K_FALSE if t else K_TRUE
+        if isinstance(c, tuple) and c:
+            if c[0] == "and" and t:
+                for y in c[1]:
+                    learn(y, True)
+            if c[0] == "or" and not t:
+                for y in c[1]:
+                    learn(y, False)
+            if c[0] == "not":
+                learn(c[1], not t)
+    learn(cond, truth)
+    known.pop(K_TRUE, None)
+    known.pop(K_FALSE, None)
+    return fold(Sigma(raw_subst=known).apply(x)) if known else x
 
 
 def fold_poly(s: S) -> S:
@@ -336,8 +381,9 @@ def paths(block: tuple, env: Optional[dict] = None, limit: int = 4096, fall: S =
                 elif c == K_FALSE:
                     walk(st[3] + rest, 0, lits, e)
                 else:
-                    walk(st[2] + rest, 0, lits + (c,), e)
-                    walk(st[3] + rest, 0, lits + (mk_not(c),), e)
+                    # each arm (and what follows it) is read knowing the outcome of the test
+                    walk(assume(tuple(st[2]) + tuple(rest), c, True), 0, lits + (c,), {k: assume(v, c, True) for k, v in e.items()})
+                    walk(assume(tuple(st[3]) + tuple(rest), c, False), 0, lits + (mk_not(c),), {k: assume(v, c, False) for k, v in e.items()})
                 return
             elif tag in ("for", "while", "mset", "aug"):
                 e = dict(e)
@@ -371,11 +417,16 @@ def value_expr(block: tuple) -> Optional[S]:
         if st[0] == "ret":
             return st[1]
         if st[0] == "if" and len(st) == 4:
-            a = v(tuple(st[2]) + rest)
-            b = v(tuple(st[3]) + rest)
+            c_ = fold(st[1])
+            if c_ == K_TRUE:
+                return v(tuple(st[2]) + rest)
+            if c_ == K_FALSE:
+                return v(tuple(st[3]) + rest)
+            a = v(assume(tuple(st[2]) + rest, c_, True))
+            b = v(assume(tuple(st[3]) + rest, c_, False))
             if a is None or b is None:
                 return None
-            return _ite(st[1], a, b)
+            return _ite(c_, a, b)
         if st[0] == "assert":
             return v(rest)
         return None
